@@ -360,6 +360,40 @@ Definition reg_tie (g : mol) (atoms : list patom) (paths : list (list Z)) : bool
             if (kind, mstr(m)) in gbad:
                 check_molecule(ck, kind, m, tag='-directed')
         ck.unchecked('tie of the registry model to the path list of the PackStereo model', glog[-1500:], [repr(gmeta[i]) for i in gfailing[:20]])
+    # MoleculeContainer.pack / unpack on ONE Graph.mol (Model.PackMol, C10_mc_roundtrip): the record read by the packer and
+    # the registry are computed inside the model; bytes, decoded molecule (incl. labels), coordinate bytes, consumed
+    # length and the precondition mc_ok are compared / evaluated on every input
+    hcases, hmeta = [], []
+    for kind, m in mols:
+        if kind == 'element' and len(hcases) % 7:
+            continue
+        data = bytes(m.pack(compressed=False))
+        xyd = lst([tup(zraw(n), lst(list(data[4 + 9 * i + 4: 4 + 9 * i + 8]), zraw)) for i, n in enumerate(m._atoms)])
+        gt = coqmol.mol_term(m)
+        hcases.append(f'mc_pack_is {gt} {xyd} {lst(list(data), zraw)}')
+        hmeta.append(('mc_pack', kind, mstr(m)))
+        u, size = MoleculeContainer.unpack(data, compressed=False, _return_pack_length=True)
+        hcases.append(f'mc_unpack_is {lst(list(data), zraw)} {coqmol.mol_term(u)} {xyd} {size}')
+        hmeta.append(('mc_unpack', kind, mstr(m)))
+    hextra = '''Definition xy_of (d : list (Z * list Z)) (n : Z) : list Z := match zget d n with Some l => l | None => nil end.
+Definition mc_pack_is (g : mol) (d : list (Z * list Z)) (bytes : list Z) : bool :=
+  mc_ok g (xy_of d) && pyres_eqb (list_eqb Z.eqb) (mc_pack g (xy_of d)) (Ok bytes).
+Definition mc_unpack_is (data : list Z) (g : mol) (d : list (Z * list Z)) (size : Z) : bool :=
+  match mc_unpack data with
+  | Ok (g', xy, sz) => mol_eqb g' g && list_eqb (list_eqb Z.eqb) xy (map snd d) && (sz =? size)
+  | Err _ => false
+  end.
+'''
+    hok, hfailing, hlog = coqcases.run_cases('c10h', 'Graph StereoRegistry Pack PackSpec PackApi PackStereo PackStereoSpec PackMol', hcases, extra=hextra, shard=100)
+    ck.oblige('correspondence: MoleculeContainer.pack / unpack on one Graph.mol (registry computed in the model, decoded molecule compared as a whole) == Coq model PackMol; mc_ok holds on every input',
+              hok and not hfailing, 'correspondence', hlog or str([hmeta[i] for i in hfailing[:5]]))
+    ck.extra['correspondence_cases'] = ck.extra.get('correspondence_cases', 0) + len(hcases)
+    if not hok or hfailing:
+        hbad = {(hmeta[i][1], hmeta[i][2]) for i in hfailing}
+        for kind, m in mols:
+            if (kind, mstr(m)) in hbad:
+                check_molecule(ck, kind, m, tag='-directed')
+        ck.unchecked('correspondence PackMol model vs MoleculeContainer.pack/unpack', hlog[-1500:], [repr(hmeta[i]) for i in hfailing[:20]])
     ok, failing, log = coqcases.run_cases('c10a', 'Pack PackSpec PackStereo PackStereoSpec', cases, extra=EXTRA, shard=150)
     ck.oblige('correspondence: terminals/centers dicts, _cis_trans_count, MoleculeContainer.unpack label re-attachment == Coq model (PackStereo)', ok and not failing,
               'correspondence', log or str([meta[i] for i in failing[:5]]))
